@@ -388,6 +388,172 @@ example : okTrue (elemRestr C10 (fun _ _ _ => .ok false) (.leaf (.elem 0 [qa]) 1
 example : okTrue (seqPass11 (isRestr C11 5) true [el 0 qa 1 (some 1)]
     [el 1 qb 0 (some 1), el 2 qa 1 (some 2)]) = true := by decide
 
+/-! ### the three repaired clauses of C14-F0 (`Ctx.repaired`) -/
+
+/-- With the repaired zero-occurrence clause (`C.repaired`, notes/fixes/C14-zero-occurs-and-empty-group.patch)
+    the wildcard rule is sound without any guard: the full statement of
+    `wildcard_restriction_sound_partial`. -/
+theorem wildcard_restriction_sound_repaired (C : Ctx) (hrep : C.repaired = true) (i j : Nat) (w ow : Wc)
+    (lo olo : Nat) (hi ohi : Option Nat)
+    (h : anyRestr C (.leaf (.any i w) lo hi) (.leaf (.any j ow) olo ohi) true = true) :
+    ∀ word : List QN, (∀ q ∈ word, q.ns ≠ xsiNs) →
+      InModel (.leaf (.any i w) lo hi) word → InModel (.leaf (.any j ow) olo ohi) word := by
+  intro word hx
+  rw [leaf_inModel_iff, leaf_inModel_iff]
+  rintro ⟨h1, h2, h3⟩
+  simp only [anyRestr, Bool.true_and, hrep, Bool.not_true, Bool.false_and, Bool.false_or] at h
+  split at h
+  · cases h
+  · rename_i hocc
+    have hocc' : hasOccursRestriction lo hi olo ohi = true := by
+      cases hh : hasOccursRestriction lo hi olo ohi <;> simp_all
+    obtain ⟨c1, c2⟩ := occurs_counts hocc' h1 h2
+    refine ⟨c1, c2, ?_⟩
+    intro q hq
+    have ha := h3 q hq
+    simp only [Leaf.matches] at ha ⊢
+    have hA : allows w (fun _ => false) (fun _ => false) q = true := by
+      simpa [allows, allowsQ] using ha
+    have := C16.restriction_sound w ow _ _ h (fun _ => false) (fun _ => false) q (hx q hq) hA
+    simpa [allows, allowsQ] using this
+
+/-- Element against wildcard with the repaired zero-occurrence clause: the guard "not {0,0}" of
+    `elem_wildcard_restriction_sound_partial` is not needed any more (the guard on substitution-group
+    members of foreign namespaces stays: that clause follows XSD). -/
+theorem elem_wildcard_restriction_sound_repaired_partial (C : Ctx) (hrep : C.repaired = true) (rec : Rec)
+    (i j : Nat) (names : List QN) (ow : Wc) (lo olo : Nat) (hi ohi : Option Nat)
+    (hguard : ∀ q ∈ names, names.head? ≠ some q → allowsQ ow q = true)
+    (hnq : C.v11 = false → ow.notQ = [])
+    (h : elemRestr C rec (.leaf (.elem i names) lo hi) (.leaf (.any j ow) olo ohi) true = .ok true) :
+    Incl (.leaf (.elem i names) lo hi) (.leaf (.any j ow) olo ohi) := by
+  by_cases hz : lo = 0 ∧ hi = some 0
+  · obtain ⟨rfl, rfl⟩ := hz
+    intro w
+    rw [leaf_inModel_iff, leaf_inModel_iff]
+    rintro ⟨_, h2, _⟩
+    simp only [elemRestr, hrep, beq_self_eq_true, Bool.and_self, ↓reduceIte, Bool.not_true,
+      Bool.false_or, pure, Except.pure, Except.ok.injEq, beq_iff_eq] at h
+    have hw : w.length = 0 := by simpa [leHi] using h2
+    have : w = [] := List.eq_nil_of_length_eq_zero hw
+    subst this
+    refine ⟨by simp [h], by cases ohi <;> simp [leHi], by simp⟩
+  · exact elem_wildcard_restriction_sound_partial C rec i j names ow lo olo hi ohi hz hguard hnq h
+
+/-- the pinned witnesses are refused by the repaired clauses -/
+theorem repaired_clauses_refuse_witnesses :
+    anyRestr { (default : Ctx) with repaired := true } (.leaf (.any 0 wAny) 0 (some 0)) (.leaf (.any 1 wAny) 1 (some 1)) true = false ∧
+    okTrue (elemRestr { C10 with repaired := true } (fun _ _ _ => .ok false) (.leaf (.elem 0 [qa]) 0 (some 0))
+      (.leaf (.any 1 wT) 1 (some 1)) true) = false ∧
+    okTrue (typeRestrictionAccepted { C10 with repaired := true } (grp 0 .seq 1 (some 1) [])
+      (grp 1 .seq 1 (some 1) [el 2 qa 1 (some 1)])) = false ∧
+    okTrue (typeRestrictionAccepted { C11 with repaired := true } (grp 0 .seq 1 (some 1) [])
+      (grp 1 .seq 1 (some 1) [el 2 qa 1 (some 1)])) = false := by decide
+
+example : anyRestr { (default : Ctx) with repaired := true } (.leaf (.any 0 wAny) 0 (some 0)) (.leaf (.any 1 wAny) 0 (some 1)) true = true := by decide
+example : okTrue (elemRestr { C10 with repaired := true } (fun _ _ _ => .ok false) (.leaf (.elem 0 [qa]) 0 (some 0))
+    (.leaf (.any 1 wT) 0 (some 1)) true) = true := by decide
+
+/-! ### XSD 1.1 open content (wildcards.py:934-940, complex_types.py:402-405) -/
+
+theorem interleave_append {σ : Type} : ∀ (u v : List σ), Interleave u v (u ++ v)
+  | [], [] => .nil
+  | [], c :: v => .right c (interleave_append [] v)
+  | c :: u, v => .left c (interleave_append u v)
+
+/-- a suffix is an interleaving -/
+theorem cat_sub_shuffle {L σ : Type} (m : L → σ → Bool) (r s : Rx L) :
+    ∀ w, Lang m (.cat r s) w → Lang m (.shuffle r s) w := by
+  rintro w ⟨u, v, rfl, h1, h2⟩
+  exact ⟨u, v, interleave_append u v, h1, h2⟩
+
+/-- XSD 1.1 open content (wildcards.py:934-940): when the rule accepts the open content of the derived
+    type against the base type's, the content models are included (`hbody`) and the accepted wildcard pair
+    is an inclusion on names (`hsym`: C16 `restriction_sound`, as in `wildcard_restriction_sound_partial`),
+    every child sequence of the derived type — content model interleaved with / followed by wildcard
+    matches — is one of the base type.  The mode clause is what this theorem adds: equal modes, or a suffix
+    restricting an interleave, never the converse. -/
+theorem open_content_restriction_sound (C : Ctx) (sd : OC) (sb : Option OC)
+    (h : ocRestriction C sd sb = true) (d b : Particle)
+    (hbody : ∀ u, Lang Leaf.matches d.toRx u → Lang Leaf.matches b.toRx u)
+    (hsym : ∀ i w j ow, sd.any = some (i, w) → (∀ o, sb = some o → o.any = some (j, ow)) →
+      ∀ q, Leaf.matches (.any i w) q = true → Leaf.matches (.any j ow) q = true) :
+    ∀ word, Lang Leaf.matches (typeRx d (some sd)) word → Lang Leaf.matches (typeRx b sb) word := by
+  intro word hw
+  obtain ⟨md, ad⟩ := sd
+  cases sb with
+  | none =>
+    simp only [ocRestriction, beq_iff_eq] at h
+    subst h
+    cases ad with
+    | none => exact hbody word (by simpa [typeRx] using hw)
+    | some p => obtain ⟨i, w⟩ := p; exact hbody word (by simpa [typeRx, withOpen] using hw)
+  | some ob =>
+    obtain ⟨mb, ab⟩ := ob
+    simp only [ocRestriction] at h
+    by_cases hbn : mb = .none
+    · subst hbn
+      simp only [beq_self_eq_true, ↓reduceIte, beq_iff_eq] at h
+      subst h
+      have : Lang Leaf.matches d.toRx word := by
+        cases ad with
+        | none => simpa [typeRx] using hw
+        | some p => obtain ⟨i, w⟩ := p; simpa [typeRx, withOpen] using hw
+      cases ab with
+      | none => simpa [typeRx] using hbody word this
+      | some p => obtain ⟨j, ow⟩ := p; simpa [typeRx, withOpen] using hbody word this
+    · have hbn' : (mb == OpenMode.none) = false := by simpa using hbn
+      simp only [hbn', Bool.false_eq_true, ↓reduceIte] at h
+      cases ad with
+      | none => simp at h
+      | some p =>
+        obtain ⟨i, w⟩ := p
+        simp only at h
+        split at h
+        · cases h
+        · rename_i hmode
+          cases ab with
+          | none => simp at h
+          | some p2 =>
+            obtain ⟨j, ow⟩ := p2
+            have hs : ∀ u, Lang Leaf.matches (.rep (.sym (Leaf.any i w)) 0 none) u →
+                Lang Leaf.matches (.rep (.sym (Leaf.any j ow)) 0 none) u := by
+              apply rep_body_monotone
+              rintro u ⟨c, rfl, hc⟩
+              exact ⟨c, rfl, hsym i w j ow rfl (fun o ho => by cases ho; rfl) c hc⟩
+            have heps : Lang Leaf.matches (.rep (.sym (Leaf.any j ow)) 0 none) [] :=
+              ⟨[], by simp, by simp, by simp [leHi], by simp⟩
+            simp only [typeRx] at hw ⊢
+            match md, mb, hmode, hbn with
+            | .none, .interleave, _, _ =>
+              exact ⟨word, [], by simpa using interleave_append word [], hbody word hw, heps⟩
+            | .none, .suffix, _, _ => exact ⟨word, [], by simp, hbody word hw, heps⟩
+            | .interleave, .interleave, _, _ => exact shuffle_monotone Leaf.matches hbody hs word hw
+            | .suffix, .interleave, _, _ =>
+              exact cat_sub_shuffle _ _ _ word (cat_monotone Leaf.matches hbody hs word hw)
+            | .suffix, .suffix, _, _ => exact cat_monotone Leaf.matches hbody hs word hw
+            | .interleave, .suffix, hm, _ => exact absurd (by decide) hm
+            | _, .none, _, hb => exact absurd rfl hb
+def wO : Wc := { ns := .set ["urn:o"], tns := "urn:t" }
+
+/-- C14-F7: the pinned clause is not evaluated for a derived type with an empty content group: `()` with an
+    interleaved ##any open content is accepted as a restriction of `(a?)` with an interleaved urn:o open
+    content (content rule, emptiness test and open-content clause all answer yes); the child `t:b` is valid
+    for the derived type only.  The repaired clause (`repairedOC`) refuses the pair. -/
+theorem open_content_empty_group_counterexample :
+    let d := grp 0 .seq 1 (some 1) []
+    let b := grp 1 .seq 1 (some 1) [el 2 qa 0 (some 1)]
+    let ocd : Option OC := some ⟨.interleave, some (5, wAny)⟩
+    let ocb : Option OC := some ⟨.interleave, some (6, wO)⟩
+    okTrue (typeRestrictionAccepted C11 d b) = true ∧ ocAccepted C11 d ocd ocb = true ∧
+    ocAccepted { C11 with repairedOC := true } d ocd ocb = false ∧
+    Rx.accepts Leaf.matches (typeRx d ocd) [qb] = true ∧ Rx.accepts Leaf.matches (typeRx b ocb) [qb] = false := by
+  decide
+
+-- non-vacuity: a suffix open content restricting an interleaved one, a narrower wildcard; refused: the converse
+example : ocRestriction C11 ⟨.suffix, some (5, wO)⟩ (some ⟨.interleave, some (6, wAny)⟩) = true ∧
+    ocRestriction C11 ⟨.interleave, some (5, wO)⟩ (some ⟨.suffix, some (6, wAny)⟩) = false ∧
+    ocRestriction C11 ⟨.interleave, some (5, wAny)⟩ (some ⟨.interleave, some (6, wO)⟩) = false := by decide
+
 set_option linter.unusedSectionVars false
 
 /-! ## Facets: the build checks on a simple-type restriction step (facets.py, simple_types.py:148-289) -/
